@@ -362,16 +362,53 @@ def find_cases(T, cfg=None):
             it = ctx.fn(k)
             t = I.out_lane(it, 'o', 0, 4)
             a = L.in_term('a', sc, 0)
-            minus1 = tm.const(32, -1)
+            signed = not T.startswith('u')
+            # Proof by cases on the position p of the deciding bit, the other side of the word left symbolic:
+            #   findLSB: value = {0^p, 1, free bits}            -> p          (p = 0 .. W-1), value = 0 -> -1
+            #   findMSB: value = {free bits (p), 1, 0^(W-1-p)}  -> p          (p = 0 .. W-2, and W-1 for unsigned types), value = 0 -> -1
+            #   findMSB, signed, negative values (GLSL: the most significant 0 bit): value = {free bits (q), 0, 1^(W-1-q)} -> q, value = -1 -> -1
+            # The W + 1 (2 W for signed findMSB) shapes cover every value; on each shape the term must normalise to the constant.
+            def shape(lowfree, bit, hi_const_ones, p):
+                parts = []
+                if fn == 'findLSB':
+                    parts = ([tm.zeros(p)] if p else []) + [tm.const(1, 1)] + ([tm.slice_(a, p + 1, w - p - 1)] if w - p - 1 else [])
+                else:
+                    parts = ([tm.slice_(a, 0, p)] if p else []) + [tm.const(1, bit)] + ([tm.const(w - p - 1, ((1 << (w - p - 1)) - 1) if hi_const_ones else 0)] if w - p - 1 else [])
+                return tm.concat(parts)
+            cases_ = [('value == 0', tm.zeros(w), -1)]
             if fn == 'findLSB':
-                cands = []
-                for zp in (0, 1):
-                    c = tm.mk('cttz', (a, zp), w)
-                    c32 = tm.zext(c, 32) if w < 32 else tm.slice_(c, 0, 32)
-                    cands.append(tm.select(tm.icmp('eq', a, tm.zeros(w)), minus1, c32))
-                if any(t is c for c in cands):
-                    return [R.ob(name, 'find_lsb_msb', R.PROVED, 'value == 0 ? -1 : count-trailing-zeros(value)', kernel=k.source())]
-            return [R.ob(name, 'find_lsb_msb', R.UNDECIDED, 'arithmetic/bit identity not exposed by the optimiser: %s' % tm.show(t, 3))]
+                cases_ += [('lowest set bit at %d' % p, shape(None, 1, False, p), p) for p in range(w)]
+            else:
+                top = w if not signed else w - 1
+                cases_ += [('highest set bit at %d' % p, shape(None, 1, False, p), p) for p in range(top)]
+                if signed:
+                    cases_ += [('negative, highest clear bit at %d' % q, shape(None, 0, True, q), q) for q in range(w - 1)]
+                    cases_ += [('value == -1', tm.const(w, (1 << w) - 1), -1)]
+            bad = []
+            und = []
+            for desc, xv, want in cases_:
+                r = tm.substitute(t, {a: xv})
+                if r.op == 'const':
+                    got = tm.sval(r)
+                    if got != want:
+                        bad.append((desc, got, want))
+                else:
+                    und.append((desc, tm.show(r, 3)))
+            res = []
+            if und and not bad:
+                return [R.ob(name, 'find_lsb_msb', R.UNDECIDED, 'the term does not normalise to a constant on the shape "%s": %s' % und[0], kernel=k.source())]
+            if not bad:
+                return [R.ob(name, 'find_lsb_msb', R.PROVED, '%s: on each of the %d value shapes (position of the deciding bit fixed, all other bits symbolic) the result is the documented bit number' % (fn, len(cases_)), kernel=k.source())]
+            neg = [b_ for b_ in bad if b_[0].startswith('negative') or b_[0] == 'value == -1']
+            pos = [b_ for b_ in bad if b_ not in neg]
+            if pos:
+                res.append(R.ob(name, 'find_lsb_msb', R.REFUTED, '%s: for every value with %s the result is %d, documented %d (%d shapes wrong)' % (fn, pos[0][0], pos[0][1], pos[0][2], len(pos)), where=R.where_of(it, t), kernel=k.source()))
+            else:
+                res.append(R.ob(name, 'find_lsb_msb', R.PROVED, '%s: correct on all shapes of non-negative values' % fn, kernel=k.source()))
+            if neg:
+                res.append(R.ob(name + '.negative', 'find_msb_negative', R.REFUTED, 'findMSB of negative values: for every value with %s the result is %d, GLSL / the documentation specify %d (the most significant 0 bit; -1 for -1)' % (neg[0][0], neg[0][1], neg[0][2]),
+                                where=R.where_of(it, t), kernel=k.source()))
+            return res
         cs.append(R.Case(name, [k], judge))
     return cs
 
